@@ -43,7 +43,7 @@ example : volByte (some "5") = 5 ∧ volByte (some "200") = 127 ∧ volByte (som
 (channel id, 0, 16-bit offset), and `base + offset` is exactly where the bytes that
 `convert_track` made of that channel's events begin. -/
 theorem C09_track_table_exact {c : Conv} {tl : List (Nat × List MEv)} {vol : Option String} {b : Built}
-    (h : assemble c tl vol = .ok b) (hlen : b.seq.length ≤ 65536) :
+    (h : assemble c tl vol = .ok b) :
     Seq.rd16 b.seq 0 = some (4 + 4 * tl.length) ∧
     Seq.rd b.seq 3 = some (tl.length % 256) ∧
     ∀ (i : Nat) (hi : i < tl.length), ∃ off stream rest,
@@ -52,9 +52,9 @@ theorem C09_track_table_exact {c : Conv} {tl : List (Nat × List MEv)} {vol : Op
       convertTrackChk c.subList.length c.macroList.length tl[i].2 = .ok stream ∧
       b.seq.drop (4 + 4 * tl.length + off) = stream ++ rest := by
   obtain ⟨ts, ss, ms, hts, hss, hms, hsz, _, _, _, _, _, hseq⟩ := assemble_ok h
-  have lts : ts.length = tl.length := by simpa using encodeStreams_length _ _ _ hts
-  have lss : ss.length = c.subList.length := encodeStreams_length _ _ _ hss
-  have lms : ms.length = c.macroList.length := encodeStreams_length _ _ _ hms
+  have lts : ts.length = tl.length := by simpa using encodeStreams_length _ _ _ _ _ hts
+  have lss : ss.length = c.subList.length := encodeStreams_length _ _ _ _ _ hss
+  have lms : ms.length = c.macroList.length := encodeStreams_length _ _ _ _ _ hms
   have hb : 4 + 4 * tl.length < 65536 := by unfold hdrSize at hsz; omega
   obtain ⟨tS, htS⟩ : ∃ x, x = startsFrom (hdrSize c tl.length) ts := ⟨_, rfl⟩
   obtain ⟨sS, hsS⟩ : ∃ x, x = startsFrom (hdrSize c tl.length + ts.flatten.length) ss := ⟨_, rfl⟩
@@ -77,14 +77,12 @@ theorem C09_track_table_exact {c : Conv} {tl : List (Nat × List MEv)} {vol : Op
   have htr := header_track (4 + 4 * tl.length) (volByte vol) (tl.map (·.1)) tS sS mS c.usedData.length
       (ts.flatten ++ (ss.flatten ++ ms.flatten)) ltS i hi' hit
   have his : i < ts.length := by rw [lts]; exact hi
-  have hen := encodeStreams_get _ _ _ hts i (by simpa using hi) his
+  have hen := encodeStreams_get _ _ _ _ _ hts i (by simpa using hi) his
   -- where the stream begins
-  have hlen' : (headerOf (4 + 4 * tl.length) (volByte vol) (tl.map (·.1)) tS sS mS c.usedData.length
-      ++ ts.flatten ++ (ss.flatten ++ ms.flatten)).length ≤ 65536 := by
-    rw [hseq'] at hlen; simpa [List.append_assoc] using hlen
+  have hfit := encodeStreams_starts _ _ _ _ _ hts i his
   obtain ⟨st, hst, hdrop⟩ := stream_at
     (headerOf (4 + 4 * tl.length) (volByte vol) (tl.map (·.1)) tS sS mS c.usedData.length)
-    (ss.flatten ++ ms.flatten) ts i his (4 + 4 * tl.length) (by rw [hH]; unfold hdrSize; omega) (by omega) hlen'
+    (ss.flatten ++ ms.flatten) ts i his (4 + 4 * tl.length) (by rw [hH]; unfold hdrSize; omega) (by rw [hH]; exact hfit)
   rw [hH, ← htS] at hst
   have hst' : tS[i] = st := by
     have := List.getElem?_eq_getElem hit
@@ -104,7 +102,7 @@ and the first stream begins right after them; slot `k < |subs|` points at the by
 `convert_track` made of subroutine `k`, slot `|subs| + k` at the bytes `convert_macro_track`
 made of macro track `k`, and the slots of the data items are zero (the linker fills them). -/
 theorem C09_slot_count {c : Conv} {tl : List (Nat × List MEv)} {vol : Option String} {b : Built}
-    (h : assemble c tl vol = .ok b) (hlen : b.seq.length ≤ 65536) :
+    (h : assemble c tl vol = .ok b) :
     b.seq.length = 4 + 4 * tl.length + 2 * (c.subList.length + c.macroList.length + c.usedData.length)
         + (b.trackStreams.flatten ++ b.subStreams.flatten ++ b.macroStreams.flatten).length ∧
     (0 < tl.length → Seq.rd16 b.seq 6 = some (2 * (c.subList.length + c.macroList.length + c.usedData.length))) ∧
@@ -120,9 +118,9 @@ theorem C09_slot_count {c : Conv} {tl : List (Nat × List MEv)} {vol : Option St
       k < c.subList.length + c.macroList.length + c.usedData.length →
       Seq.rd16 b.seq (4 + 4 * tl.length + 2 * k) = some 0) := by
   obtain ⟨ts, ss, ms, hts, hss, hms, hsz, _, _, hbt, hbs, hbm, hseq⟩ := assemble_ok h
-  have lts : ts.length = tl.length := by simpa using encodeStreams_length _ _ _ hts
-  have lss : ss.length = c.subList.length := encodeStreams_length _ _ _ hss
-  have lms : ms.length = c.macroList.length := encodeStreams_length _ _ _ hms
+  have lts : ts.length = tl.length := by simpa using encodeStreams_length _ _ _ _ _ hts
+  have lss : ss.length = c.subList.length := encodeStreams_length _ _ _ _ _ hss
+  have lms : ms.length = c.macroList.length := encodeStreams_length _ _ _ _ _ hms
   have hb : 4 + 4 * tl.length < 65536 := by unfold hdrSize at hsz; omega
   obtain ⟨tS, htS⟩ : ∃ x, x = startsFrom (hdrSize c tl.length) ts := ⟨_, rfl⟩
   obtain ⟨sS, hsS⟩ : ∃ x, x = startsFrom (hdrSize c tl.length + ts.flatten.length) ss := ⟨_, rfl⟩
@@ -136,8 +134,6 @@ theorem C09_slot_count {c : Conv} {tl : List (Nat × List MEv)} {vol : Option St
     rw [hHdef, headerOf_length _ _ _ _ _ _ _ ltS, lsS, lmS]; simp [hdrSize]; omega
   have hseq' : b.seq = H ++ (ts.flatten ++ (ss.flatten ++ ms.flatten)) := by rw [hseq, hHdef]; simp [List.append_assoc]
   have hml : (tl.map (·.1)).length = tl.length := by simp
-  have hlenN : H.length + (ts.flatten.length + (ss.flatten.length + ms.flatten.length)) ≤ 65536 := by
-    rw [hseq'] at hlen; simpa using hlen
   refine ⟨?_, ?_, ?_, ?_, ?_⟩
   · rw [hseq', hbt, hbs, hbm]; simp only [List.length_append, hH, hdrSize]; omega
   · intro hpos
@@ -161,10 +157,11 @@ theorem C09_slot_count {c : Conv} {tl : List (Nat × List MEv)} {vol : Option St
     have hks : k < ss.length := by rw [lss]; exact hk
     have hkS : k < sS.length := by rw [lsS]; exact hk
     have hget : (sS ++ mS)[k] = sS[k] := List.getElem_append_left hkS
-    have hen := encodeStreams_get _ _ _ hss k hk hks
+    have hen := encodeStreams_get _ _ _ _ _ hss k hk hks
+    have hfit := encodeStreams_starts _ _ _ _ _ hss k hks
     obtain ⟨st, hst, hdrop⟩ := stream_at (H ++ ts.flatten) ms.flatten ss k hks (4 + 4 * tl.length)
-      (by rw [List.length_append, hH]; unfold hdrSize; omega) (by omega)
-      (by simp only [List.length_append]; omega)
+      (by rw [List.length_append, hH]; unfold hdrSize; omega)
+      (by rw [List.length_append, hH]; exact hfit)
     rw [List.length_append, hH, ← hsS] at hst
     have hst' : sS[k] = st := by
       rw [List.getElem?_eq_getElem hkS] at hst; exact Option.some.inj hst
@@ -184,10 +181,11 @@ theorem C09_slot_count {c : Conv} {tl : List (Nat × List MEv)} {vol : Option St
     have hget : (sS ++ mS)[c.subList.length + k] = mS[k] := by
       rw [List.getElem_append_right (by rw [lsS]; omega)]
       simp [lsS]
-    have hen := encodeStreams_get _ _ _ hms k hk hks
+    have hen := encodeStreams_get _ _ _ _ _ hms k hk hks
+    have hfit := encodeStreams_starts _ _ _ _ _ hms k hks
     obtain ⟨st, hst, hdrop⟩ := stream_at (H ++ ts.flatten ++ ss.flatten) [] ms k hks (4 + 4 * tl.length)
-      (by simp only [List.length_append, hH]; unfold hdrSize; omega) (by omega)
-      (by simp only [List.length_append, List.length_nil]; omega)
+      (by simp only [List.length_append, hH]; unfold hdrSize; omega)
+      (by simp only [List.length_append, hH]; exact hfit)
     simp only [List.length_append, hH] at hst
     rw [← hmS] at hst
     have hst' : mS[k] = st := by
@@ -245,8 +243,8 @@ theorem C09_index_fits_byte {c : Conv} {tl : List (Nat × List MEv)} {vol : Opti
   intro evs hevs ev hev
   have hall : evs.all (idxFits c.subList.length c.macroList.length) = true := by
     rcases List.mem_append.mp hevs with h1 | h1
-    · exact encodeStreams_fits _ _ hts evs h1
-    · exact encodeStreams_fits _ _ hss evs h1
+    · exact encodeStreams_fits _ _ _ _ hts evs h1
+    · exact encodeStreams_fits _ _ _ _ hss evs h1
   have hfit := List.all_eq_true.mp hall ev hev
   unfold idxFits at hfit
   have hmax : mdsFile_indexMax = 255 := rfl
